@@ -700,6 +700,41 @@ def r42_writeback_gated(facts):
                                        "and starts training from the next iteration")
         if n_writes == 0:
             c.unk("writeback:%s" % u["def"], loc(u, facts.root(u)), "no `*parameter = ..` store found in update or the functions it calls (parameters replaced in another way)")
+        # the values a parameter is rebuilt from are CONSUMED from the flat buffer (drain / split_off / a shared iterator / a running offset):
+        # a read that starts at the front every time gives every parameter the first parameter's values
+        fl_ = facts.float or "f64"
+        for nb in bodies:
+            for n in walk(facts.root(nb)):
+                if n.get("k") != "Assign":
+                    continue
+                lhs = strip(n["l"])
+                if lhs.get("ty") != ARRAY or lhs.get("k") != "Deref":
+                    continue
+                # buffers declared outside this body and mentioned on the right-hand side
+                own_lets = {st["pat"]["v"] for x in walk(facts.root(nb)) if x.get("k") == "Block" for st in x["stmts"] if st["s"] == "let" and st["pat"].get("k") == "Binding"}
+                bufs = [x for x in walk(n["r"]) if x.get("k") in ("VarRef", "UpvarRef") and ("Vec<%s>" % fl_) in (x.get("ty") or "") and x["v"] not in own_lets]
+                if not bufs:
+                    continue
+                bv = bufs[0]["v"]
+                uses = [(callee(x) or "").rsplit("::", 1)[-1] for x in walk(n["r"]) if x.get("k") == "Call" and x.get("args")
+                        and any(y.get("k") in ("VarRef", "UpvarRef") and y["v"] == bv for y in walk(x["args"][0]))]
+                consuming = any(u in ("drain", "split_off", "remove", "swap_remove", "pop", "next", "by_ref", "truncate", "drain_filter", "extract_if") for u in uses)
+                # a slice with a running offset
+                offset_ok = False
+                for x in walk(n["r"]):
+                    if x.get("k") == "Adt" and (x.get("adt") or "").startswith("core::ops::range::") :
+                        for f_ in x.get("fields") or []:
+                            sv_ = var_of(peel(f_["e"])) or next((y["v"] for y in walk(f_["e"]) if y.get("k") in ("VarRef", "UpvarRef")), None)
+                            if sv_ and any(y.get("k") in ("AssignOp", "Assign") and var_of(y["l"]) == sv_ for nb2 in bodies for y in walk(facts.root(nb2))):
+                                offset_ok = True
+                inst2 = "consumes:%s" % u["def"]
+                if consuming or offset_ok:
+                    c.ok(inst2, loc(nb, n), "each parameter's new values are taken off the flat buffer (%s)" % ("a consuming call" if consuming else "a running offset"), nontrivial=False)
+                elif any(u in ("iter", "into_iter", "take", "clone", "to_vec", "as_slice", "index", "get") for u in uses) or uses == []:
+                    c.bad(inst2, loc(nb, n), "every parameter is rebuilt from the FRONT of the flat buffer `%s` (%s): nothing is consumed and no offset advances, so the second and later parameters "
+                          "receive the first one's values" % (bv.split("#")[0], ", ".join(uses[:4]) or "read as a whole"))
+                else:
+                    c.unk(inst2, loc(nb, n), "how the flat buffer `%s` is read for each parameter is not recognised (%s)" % (bv.split("#")[0], ", ".join(uses[:4])))
         # the selection looks at the PRESENCE of a gradient only: a Boolean computed from a gradient's values (all zero? small?) would
         # leave a parameter that holds such a gradient un-stepped and its gradient in place
         hit = None
@@ -1157,7 +1192,7 @@ def r52_model_update_delegates(facts):
         # the collector walks self.layers completely
         selective = None
         mentions_layers = False
-        for x in walk(facts.root(pb)):
+        for x in (y for nb in facts.nested(pb) for y in walk(facts.root(nb))):
             if x.get("k") == "Field" and x.get("name") == "layers":
                 mentions_layers = True
             if x.get("k") == "Call" and (callee(x) or "").rsplit("::", 1)[-1] in ("skip", "take", "filter", "step_by", "skip_while", "take_while", "filter_map", "nth", "last", "first"):
